@@ -11,12 +11,18 @@
 // (spec side of the cast_value! conversions: see shims/milu.rs; the impl bodies are extracted and checked here)
 
 spec fn rv(args: Seq<Value>, i: int, ctx: ScriptContextRef) -> Result<Value, Error> {
-    if 0 <= i < args.len() { real_value_spec(args[i], ctx) } else { Err(Error {}) }
+    if 0 <= i < args.len() { real_value_spec(args[i], ctx) } else { Err(Error { type_mismatch: false }) }
 }
 spec fn same_scalar_kind(a: Value, b: Value) -> bool {
     (a is Integer && b is Integer) || (a is String && b is String) || (a is Boolean && b is Boolean)
 }
 spec fn scalar_or_any(t: Type) -> bool { t is Integer || t is String || t is Boolean || t is Any }
+spec fn types_agree(a: Type, b: Type) -> bool { a is Any || b is Any || a == b }
+spec fn same_static_scalar(args: Seq<Value>, ctx: ScriptContextRef) -> bool {
+    arg_is(args, 0, ctx, Type::Integer) && arg_is(args, 1, ctx, Type::Integer)
+    || arg_is(args, 0, ctx, Type::String) && arg_is(args, 1, ctx, Type::String)
+    || arg_is(args, 0, ctx, Type::Boolean) && arg_is(args, 1, ctx, Type::Boolean)
+}
 spec fn okb(b: bool) -> Result<Value, Error> { Ok(Value::Boolean(b)) }
 
 //@ contract comparable
@@ -27,12 +33,15 @@ spec fn okb(b: bool) -> Result<Value, Error> { Ok(Value::Boolean(b)) }
         ret is Ok ==> (ret->Ok_0 == Type::Boolean && args@.len() == 2
             && real_type_spec(args@[0], ctx) is Ok && scalar_or_any(real_type_spec(args@[0], ctx)->Ok_0)
             && real_type_spec(args@[1], ctx) is Ok && scalar_or_any(real_type_spec(args@[1], ctx)->Ok_0)),
+        // accepted ==> the two static types agree (same scalar, or one of them is Any)
+        ret is Ok ==> types_agree(real_type_spec(args@[0], ctx)->Ok_0, real_type_spec(args@[1], ctx)->Ok_0),
 //@ end
 
 // ---------------------------------------------------------------- Greater
 //@ contract Greater::signature
         ensures
             ret is Ok ==> (ret->Ok_0 == Type::Boolean && args@.len() >= 2),
+            ret is Ok ==> (rt(args@, 0, ctx) is Ok && rt(args@, 1, ctx) is Ok && types_agree(rt(args@, 0, ctx)->Ok_0, rt(args@, 1, ctx)->Ok_0)),
 //@ end
 //@ contract Greater::call
         ensures
@@ -44,12 +53,15 @@ spec fn okb(b: bool) -> Result<Value, Error> { Ok(Value::Boolean(b)) }
                 (Value::Boolean(p), Value::Boolean(q)) => ret == okb(p && !q),
                 _ => ret is Err,
             }),
+            // both operands of the same static scalar type and evaluated: the comparison is defined -- no error at all
+            (same_static_scalar(args@, ctx) && rv(args@, 0, ctx) is Ok && rv(args@, 1, ctx) is Ok) ==> ret is Ok,
 //@ end
 
 // ---------------------------------------------------------------- GreaterOrEqual
 //@ contract GreaterOrEqual::signature
         ensures
             ret is Ok ==> (ret->Ok_0 == Type::Boolean && args@.len() >= 2),
+            ret is Ok ==> (rt(args@, 0, ctx) is Ok && rt(args@, 1, ctx) is Ok && types_agree(rt(args@, 0, ctx)->Ok_0, rt(args@, 1, ctx)->Ok_0)),
 //@ end
 //@ contract GreaterOrEqual::call
         ensures
@@ -61,12 +73,15 @@ spec fn okb(b: bool) -> Result<Value, Error> { Ok(Value::Boolean(b)) }
                 (Value::Boolean(p), Value::Boolean(q)) => ret == okb(p || !q),
                 _ => ret is Err,
             }),
+            // both operands of the same static scalar type and evaluated: the comparison is defined -- no error at all
+            (same_static_scalar(args@, ctx) && rv(args@, 0, ctx) is Ok && rv(args@, 1, ctx) is Ok) ==> ret is Ok,
 //@ end
 
 // ---------------------------------------------------------------- Lesser
 //@ contract Lesser::signature
         ensures
             ret is Ok ==> (ret->Ok_0 == Type::Boolean && args@.len() >= 2),
+            ret is Ok ==> (rt(args@, 0, ctx) is Ok && rt(args@, 1, ctx) is Ok && types_agree(rt(args@, 0, ctx)->Ok_0, rt(args@, 1, ctx)->Ok_0)),
 //@ end
 //@ contract Lesser::call
         ensures
@@ -78,12 +93,15 @@ spec fn okb(b: bool) -> Result<Value, Error> { Ok(Value::Boolean(b)) }
                 (Value::Boolean(p), Value::Boolean(q)) => ret == okb(!p && q),
                 _ => ret is Err,
             }),
+            // both operands of the same static scalar type and evaluated: the comparison is defined -- no error at all
+            (same_static_scalar(args@, ctx) && rv(args@, 0, ctx) is Ok && rv(args@, 1, ctx) is Ok) ==> ret is Ok,
 //@ end
 
 // ---------------------------------------------------------------- LesserOrEqual
 //@ contract LesserOrEqual::signature
         ensures
             ret is Ok ==> (ret->Ok_0 == Type::Boolean && args@.len() >= 2),
+            ret is Ok ==> (rt(args@, 0, ctx) is Ok && rt(args@, 1, ctx) is Ok && types_agree(rt(args@, 0, ctx)->Ok_0, rt(args@, 1, ctx)->Ok_0)),
 //@ end
 //@ contract LesserOrEqual::call
         ensures
@@ -95,12 +113,15 @@ spec fn okb(b: bool) -> Result<Value, Error> { Ok(Value::Boolean(b)) }
                 (Value::Boolean(p), Value::Boolean(q)) => ret == okb(!p || q),
                 _ => ret is Err,
             }),
+            // both operands of the same static scalar type and evaluated: the comparison is defined -- no error at all
+            (same_static_scalar(args@, ctx) && rv(args@, 0, ctx) is Ok && rv(args@, 1, ctx) is Ok) ==> ret is Ok,
 //@ end
 
 // ---------------------------------------------------------------- Equal
 //@ contract Equal::signature
         ensures
             ret is Ok ==> (ret->Ok_0 == Type::Boolean && args@.len() >= 2),
+            ret is Ok ==> (rt(args@, 0, ctx) is Ok && rt(args@, 1, ctx) is Ok && types_agree(rt(args@, 0, ctx)->Ok_0, rt(args@, 1, ctx)->Ok_0)),
 //@ end
 //@ contract Equal::call
         ensures
@@ -112,12 +133,15 @@ spec fn okb(b: bool) -> Result<Value, Error> { Ok(Value::Boolean(b)) }
                 (Value::Boolean(p), Value::Boolean(q)) => ret == okb(p == q),
                 _ => ret is Err,
             }),
+            // both operands of the same static scalar type and evaluated: the comparison is defined -- no error at all
+            (same_static_scalar(args@, ctx) && rv(args@, 0, ctx) is Ok && rv(args@, 1, ctx) is Ok) ==> ret is Ok,
 //@ end
 
 // ---------------------------------------------------------------- NotEqual
 //@ contract NotEqual::signature
         ensures
             ret is Ok ==> (ret->Ok_0 == Type::Boolean && args@.len() >= 2),
+            ret is Ok ==> (rt(args@, 0, ctx) is Ok && rt(args@, 1, ctx) is Ok && types_agree(rt(args@, 0, ctx)->Ok_0, rt(args@, 1, ctx)->Ok_0)),
 //@ end
 //@ contract NotEqual::call
         ensures
@@ -129,30 +153,36 @@ spec fn okb(b: bool) -> Result<Value, Error> { Ok(Value::Boolean(b)) }
                 (Value::Boolean(p), Value::Boolean(q)) => ret == okb(p != q),
                 _ => ret is Err,
             }),
+            // both operands of the same static scalar type and evaluated: the comparison is defined -- no error at all
+            (same_static_scalar(args@, ctx) && rv(args@, 0, ctx) is Ok && rv(args@, 1, ctx) is Ok) ==> ret is Ok,
 //@ end
 
 // ---------------------------------------------------------------- Not
 //@ contract Not::signature
         ensures
             ret is Ok ==> (ret->Ok_0 == Type::Boolean && args@.len() >= 1),
+            ret is Ok ==> (sig_arg(args@, 0, ctx, Type::Boolean)),
 //@ end
 //@ loop Not::signature 0
-                    invariant targs@.len() == vf_it.index@,
+                    invariant targs_ok(targs@, args@, vf_it.index@ as int, ctx),
 //@ end
 //@ contract Not::call
         ensures
             ret is Ok ==> has_type(ret->Ok_0, Type::Boolean),
             rv(args@, 0, ctx) is Err ==> ret is Err,
             rv(args@, 0, ctx) matches Ok(Value::Boolean(p)) ==> ret == okb(!p),
+            // operands of static type Boolean: no failed cast
+            (arg_is(args@, 0, ctx, Type::Boolean) && no_type_err(rv(args@, 0, ctx))) ==> no_type_err(ret),
 //@ end
 
 // ---------------------------------------------------------------- And (second operand not evaluated when the first is false)
 //@ contract And::signature
         ensures
             ret is Ok ==> (ret->Ok_0 == Type::Boolean && args@.len() >= 2),
+            ret is Ok ==> (sig_arg(args@, 0, ctx, Type::Boolean) && sig_arg(args@, 1, ctx, Type::Boolean)),
 //@ end
 //@ loop And::signature 0
-                    invariant targs@.len() == vf_it.index@,
+                    invariant targs_ok(targs@, args@, vf_it.index@ as int, ctx),
 //@ end
 //@ contract And::call
         ensures
@@ -164,15 +194,18 @@ spec fn okb(b: bool) -> Result<Value, Error> { Ok(Value::Boolean(b)) }
                     &&& (rv(args@, 1, ctx) is Err ==> ret is Err)
                     &&& (rv(args@, 1, ctx) matches Ok(Value::Boolean(q)) ==> ret == okb(q))
                 })),
+            // operands of static type Boolean: no failed cast
+            (arg_is(args@, 0, ctx, Type::Boolean) && arg_is(args@, 1, ctx, Type::Boolean) && no_type_err(rv(args@, 0, ctx)) && no_type_err(rv(args@, 1, ctx))) ==> no_type_err(ret),
 //@ end
 
 // ---------------------------------------------------------------- Or (second operand not evaluated when the first is true)
 //@ contract Or::signature
         ensures
             ret is Ok ==> (ret->Ok_0 == Type::Boolean && args@.len() >= 2),
+            ret is Ok ==> (sig_arg(args@, 0, ctx, Type::Boolean) && sig_arg(args@, 1, ctx, Type::Boolean)),
 //@ end
 //@ loop Or::signature 0
-                    invariant targs@.len() == vf_it.index@,
+                    invariant targs_ok(targs@, args@, vf_it.index@ as int, ctx),
 //@ end
 //@ contract Or::call
         ensures
@@ -184,19 +217,24 @@ spec fn okb(b: bool) -> Result<Value, Error> { Ok(Value::Boolean(b)) }
                     &&& (rv(args@, 1, ctx) is Err ==> ret is Err)
                     &&& (rv(args@, 1, ctx) matches Ok(Value::Boolean(q)) ==> ret == okb(q))
                 })),
+            // operands of static type Boolean: no failed cast
+            (arg_is(args@, 0, ctx, Type::Boolean) && arg_is(args@, 1, ctx, Type::Boolean) && no_type_err(rv(args@, 0, ctx)) && no_type_err(rv(args@, 1, ctx))) ==> no_type_err(ret),
 //@ end
 
 // ---------------------------------------------------------------- Xor
 //@ contract Xor::signature
         ensures
             ret is Ok ==> (ret->Ok_0 == Type::Boolean && args@.len() >= 2),
+            ret is Ok ==> (sig_arg(args@, 0, ctx, Type::Boolean) && sig_arg(args@, 1, ctx, Type::Boolean)),
 //@ end
 //@ loop Xor::signature 0
-                    invariant targs@.len() == vf_it.index@,
+                    invariant targs_ok(targs@, args@, vf_it.index@ as int, ctx),
 //@ end
 //@ contract Xor::call
         ensures
             ret is Ok ==> has_type(ret->Ok_0, Type::Boolean),
             (rv(args@, 0, ctx) is Err || rv(args@, 1, ctx) is Err) ==> ret is Err,
             rv(args@, 0, ctx) matches Ok(Value::Boolean(p)) ==> (rv(args@, 1, ctx) matches Ok(Value::Boolean(q)) ==> ret == okb(p != q)),
+            // operands of static type Boolean: no failed cast
+            (arg_is(args@, 0, ctx, Type::Boolean) && arg_is(args@, 1, ctx, Type::Boolean) && no_type_err(rv(args@, 0, ctx)) && no_type_err(rv(args@, 1, ctx))) ==> no_type_err(ret),
 //@ end
